@@ -142,6 +142,37 @@ def run_call_model(ctx: Ctx):
             want_vals = [None if fl else int_model_value(float(av), float(bv)) for av, bv, fl in zip(a, b, fails)]
             got_vals = [None if (i in par.get('errors', [])) else par['r'][i] for i in range(N)]   # NaN rows are None already
             meta.append((case, want_vals, got_vals))
+    # ---- mixed-fidelity batches with failures: every error record carries the fidelity of the evaluation that failed
+    from amisc import Component, Variable
+
+    def packed_mf(inputs, model_fidelity=(0,)):
+        if int(inputs['a']) == 4:
+            raise ValueError('model failure at a=4')
+        return {'r': int_model_value(float(inputs['a']), float(inputs['b'])) + 1000.0 * int(model_fidelity[0])}
+    cm = Component(packed_mf, [Variable('a', domain=(0, 10)), Variable('b', domain=(0, 10))], [Variable('r')], name='packed_mf', vectorized=False,
+                   model_fidelity=(3,))
+    for n in range(ctx.pick(10, 80)):
+        N = rng.randint(2, 6)
+        a = np.array([float(rng.choice([4, 4, rng.randint(0, 9)])) for _ in range(N)]); b = np.array([float(rng.randint(0, 9)) / 2 for _ in range(N)])
+        alphas = [(rng.randint(0, 3),) for _ in range(N)]
+        case = {'mixed_fidelity_call': n, 'a': a.tolist(), 'b': b.tolist(), 'fidelities': [list(t) for t in alphas]}
+        ctx.case(case, nontrivial=len(set(alphas)) > 1 and 4.0 in a, kind='call_model:mixed-fidelity')
+        serial = cm.call_model({'a': a, 'b': b}, model_fidelity=alphas)
+        perm = tuple(rng.sample(range(N), N))
+        ex = SchedExecutor(lambda m, p=perm: list(p) if m == len(p) else list(range(m)))
+        saved = install_wait(ex)
+        try:
+            par = cm.call_model({'a': a, 'b': b}, model_fidelity=alphas, executor=ex)
+        finally:
+            restore_wait(saved)
+        if canon_ds(serial) != canon_ds(par):
+            ctx.violate('C15:executor-vs-serial', f'mixed-fidelity batch, schedule {perm}: executor gives {canon_ds(par)}, serial gives {canon_ds(serial)}', case)
+        for label, ds in (('serial', serial), ('executor', par)):
+            for i, rec in (ds.get('errors') or {}).items():
+                mf = tuple(int(t) for t in np.ravel(rec.get('model_kwargs', {}).get('model_fidelity', (-1,))))
+                if mf != alphas[i] or int(rec['index']) != i:
+                    ctx.violate('C15:error-record-misaligned', f'{label} path: the error record of sample {i} names fidelity {mf} / index {rec["index"]}; the evaluation that '
+                                f'failed ran at fidelity {alphas[i]}', {**case, 'path': label}); break
     for (case, want, got), mo in zip(meta, run_model(lines, shards=8) if lines else []):
         ctx.count('schedules_compared')
         if isinstance(mo, ModelError):
